@@ -13,9 +13,9 @@ import (
 // ETSI EN 300 468 5.2 (NIT, SDT, EIT, TOT; Annex C date/time). Nothing here calls the
 // library for an expected value; the library's struct types are used as the content model.
 
-// refCRC32 is CRC-32/MPEG-2, bit by bit: polynomial 0x04C11DB7, initial value all ones,
+// psiRefCRC32 is CRC-32/MPEG-2, bit by bit: polynomial 0x04C11DB7, initial value all ones,
 // no reflection, no final XOR (ISO 13818-1 Annex A).
-func refCRC32(bs []byte) uint32 {
+func psiRefCRC32(bs []byte) uint32 {
 	crc := uint32(0xffffffff)
 	for _, b := range bs {
 		for k := 7; k >= 0; k-- {
@@ -50,38 +50,38 @@ const (
 	rTidNull = 0xff
 )
 
-func refIsEIT(t int) bool { return t >= rTidEIT0 && t <= rTidEIT1 }
-func refIsNIT(t int) bool { return t == rTidNITa || t == rTidNITo }
-func refIsSDT(t int) bool { return t == rTidSDTa || t == rTidSDTo }
+func psiRefIsEIT(t int) bool { return t >= rTidEIT0 && t <= rTidEIT1 }
+func psiRefIsNIT(t int) bool { return t == rTidNITa || t == rTidNITo }
+func psiRefIsSDT(t int) bool { return t == rTidSDTa || t == rTidSDTo }
 
-// refDecoded reports whether the table is one of the six decoded types (all of which carry a CRC_32).
-func refDecoded(t int) bool {
-	return t == rTidPAT || t == rTidPMT || refIsNIT(t) || refIsSDT(t) || refIsEIT(t) || t == rTidTOT
+// psiRefDecoded reports whether the table is one of the six decoded types (all of which carry a CRC_32).
+func psiRefDecoded(t int) bool {
+	return t == rTidPAT || t == rTidPMT || psiRefIsNIT(t) || psiRefIsSDT(t) || psiRefIsEIT(t) || t == rTidTOT
 }
 
-// refLongSyntax: table_id_extension / version / section numbers present (TOT has the short form)
-func refLongSyntax(t int) bool { return refDecoded(t) && t != rTidTOT }
+// psiRefLongSyntax: table_id_extension / version / section numbers present (TOT has the short form)
+func psiRefLongSyntax(t int) bool { return psiRefDecoded(t) && t != rTidTOT }
 
-// refKnown: table ids that are skipped by their section_length when not decoded
-func refKnown(t int) bool {
+// psiRefKnown: table ids that are skipped by their section_length when not decoded
+func psiRefKnown(t int) bool {
 	switch t {
 	case rTidBAT, rTidDIT, rTidRST, rTidSIT, rTidST, rTidTDT:
 		return true
 	}
-	return refDecoded(t)
+	return psiRefDecoded(t)
 }
 
-func refTableName(t int) string {
+func psiRefTableName(t int) string {
 	switch {
 	case t == rTidPAT:
 		return "PAT"
 	case t == rTidPMT:
 		return "PMT"
-	case refIsNIT(t):
+	case psiRefIsNIT(t):
 		return "NIT"
-	case refIsSDT(t):
+	case psiRefIsSDT(t):
 		return "SDT"
-	case refIsEIT(t):
+	case psiRefIsEIT(t):
 		return "EIT"
 	case t == rTidTOT:
 		return "TOT"
@@ -104,36 +104,36 @@ func refTableName(t int) string {
 }
 
 // descriptors whose body the library decodes into a typed structure (the body's content is C14's subject)
-var refTypedTags = map[uint8]bool{0x6a: true, 0x28: true, 0x50: true, 0x54: true, 0x06: true, 0x7a: true, 0x4e: true,
+var psiRefTypedTags = map[uint8]bool{0x6a: true, 0x28: true, 0x50: true, 0x54: true, 0x06: true, 0x7a: true, 0x4e: true,
 	0x7f: true, 0x0a: true, 0x58: true, 0x0e: true, 0x40: true, 0x55: true, 0x0f: true, 0x5f: true, 0x05: true,
 	0x48: true, 0x4d: true, 0x52: true, 0x59: true, 0x56: true, 0x45: true, 0x46: true}
 
-func refIsUserTag(t uint8) bool { return t >= 0x80 && t <= 0xfe }
+func psiRefIsUserTag(t uint8) bool { return t >= 0x80 && t <= 0xfe }
 
 // ---------- date and time (EN 300 468 Annex C: MJD + BCD) ----------
 
-const refMJDEpoch = 40587 // MJD of 1970-01-01
+const psiRefMJDEpoch = 40587 // MJD of 1970-01-01
 
-func refBCD2(b byte) int { return int(b>>4)*10 + int(b&0xf) }
-func refToBCD(v int) byte { return byte(v/10)<<4 | byte(v%10) }
+func psiRefBCD2(b byte) int { return int(b>>4)*10 + int(b&0xf) }
+func psiRefToBCD(v int) byte { return byte(v/10)<<4 | byte(v%10) }
 
-func refDecodeTime(b []byte) time.Time {
+func psiRefDecodeTime(b []byte) time.Time {
 	mjd := int64(b[0])<<8 | int64(b[1])
-	secs := int64(refBCD2(b[2]))*3600 + int64(refBCD2(b[3]))*60 + int64(refBCD2(b[4]))
-	return time.Unix((mjd-refMJDEpoch)*86400+secs, 0).UTC()
+	secs := int64(psiRefBCD2(b[2]))*3600 + int64(psiRefBCD2(b[3]))*60 + int64(psiRefBCD2(b[4]))
+	return time.Unix((mjd-psiRefMJDEpoch)*86400+secs, 0).UTC()
 }
 
-func refDecodeDuration(b []byte) time.Duration {
-	return time.Duration(refBCD2(b[0]))*time.Hour + time.Duration(refBCD2(b[1]))*time.Minute + time.Duration(refBCD2(b[2]))*time.Second
+func psiRefDecodeDuration(b []byte) time.Duration {
+	return time.Duration(psiRefBCD2(b[0]))*time.Hour + time.Duration(psiRefBCD2(b[1]))*time.Minute + time.Duration(psiRefBCD2(b[2]))*time.Second
 }
 
-// refRawTimes holds start_time fields that have no canonical BCD form (undefined = all ones, invalid digits):
+// psiRefRawTimes holds start_time fields that have no canonical BCD form (undefined = all ones, invalid digits):
 // the generator registers the raw five bytes for the time value it stores in the content model.
-var refRawTimes = map[int64][5]byte{}
+var psiRefRawTimes = map[int64][5]byte{}
 
-func refEncodeTime(w *bw, t time.Time) {
+func psiRefEncodeTime(w *bw, t time.Time) {
 	u := t.Unix()
-	if raw, ok := refRawTimes[u]; ok {
+	if raw, ok := psiRefRawTimes[u]; ok {
 		w.bytes(raw[:])
 		return
 	}
@@ -143,26 +143,44 @@ func refEncodeTime(w *bw, t time.Time) {
 		secs += 86400
 		days--
 	}
-	w.put(16, uint64(days+refMJDEpoch))
-	w.put(8, uint64(refToBCD(int(secs/3600))))
-	w.put(8, uint64(refToBCD(int(secs/60%60))))
-	w.put(8, uint64(refToBCD(int(secs%60))))
+	w.put(16, uint64(days+psiRefMJDEpoch))
+	w.put(8, uint64(psiRefToBCD(int(secs/3600))))
+	w.put(8, uint64(psiRefToBCD(int(secs/60%60))))
+	w.put(8, uint64(psiRefToBCD(int(secs%60))))
 }
 
-func refEncodeDuration(w *bw, d time.Duration) {
+func psiRefEncodeDuration(w *bw, d time.Duration) {
 	s := int(d / time.Second)
-	w.put(8, uint64(refToBCD(s/3600)))
-	w.put(8, uint64(refToBCD(s/60%60)))
-	w.put(8, uint64(refToBCD(s%60)))
+	w.put(8, uint64(psiRefToBCD(s/3600)))
+	w.put(8, uint64(psiRefToBCD(s/60%60)))
+	w.put(8, uint64(psiRefToBCD(s%60)))
 }
 
 // ---------- encoder ----------
 
-// refRsv yields the value of reserved bits: all ones unless a generator installs another source.
-var refRsv = func(n uint) uint64 { return 1<<n - 1 }
+// psiRefRsv yields the value of reserved bits: all ones, unless a generator sets psiRefRsvMode to
+// 1 (all zero) or to a seed >= 2 (pseudo-random, the same sequence for every encoding of a section).
+var (
+	psiRefRsvMode uint64
+	psiRefRsvCtr  uint64
+)
 
-func refDescBody(d *astits.Descriptor) []byte {
-	if refIsUserTag(d.Tag) {
+func psiRefRsv(n uint) uint64 {
+	switch psiRefRsvMode {
+	case 0:
+		return 1<<n - 1
+	case 1:
+		return 0
+	}
+	psiRefRsvCtr++
+	z := (psiRefRsvMode + psiRefRsvCtr) * 0x9E3779B97F4A7C15
+	z = (z ^ (z >> 30)) * 0xBF58476D1CE4E5B9
+	z = (z ^ (z >> 27)) * 0x94D049BB133111EB
+	return (z ^ (z >> 31)) & (1<<n - 1)
+}
+
+func psiRefDescBody(d *astits.Descriptor) []byte {
+	if psiRefIsUserTag(d.Tag) {
 		return d.UserDefined
 	}
 	if d.Unknown != nil {
@@ -171,33 +189,34 @@ func refDescBody(d *astits.Descriptor) []byte {
 	return nil
 }
 
-func refEncodeDescriptors(w *bw, ds []*astits.Descriptor) {
+func psiRefEncodeDescriptors(w *bw, ds []*astits.Descriptor) {
 	for _, d := range ds {
-		body := refDescBody(d)
+		body := psiRefDescBody(d)
 		w.put(8, uint64(d.Tag))
 		w.put(8, uint64(len(body)))
 		w.bytes(body)
 	}
 }
 
-func refDescLoop(w *bw, ds []*astits.Descriptor) {
+func psiRefDescLoop(w *bw, ds []*astits.Descriptor) {
 	body := &bw{}
-	refEncodeDescriptors(body, ds)
-	w.put(4, refRsv(4))
+	psiRefEncodeDescriptors(body, ds)
+	w.put(4, psiRefRsv(4))
 	w.put(12, uint64(len(body.b)))
 	w.bytes(body.b)
 }
 
-// refEncodeSection encodes one section of the six decoded types (or a header-only section when
+// psiRefEncodeSection encodes one section of the six decoded types (or a header-only section when
 // the content has no syntax part); derived fields of the model (SectionLength, TableType, CRC32,
 // descriptor lengths) are ignored.
-func refEncodeSection(s *astits.PSISection) []byte {
+func psiRefEncodeSection(s *astits.PSISection) []byte {
+	psiRefRsvCtr = 0
 	tid := int(s.Header.TableID)
 	body := &bw{}
 	if s.Syntax != nil {
-		if h := s.Syntax.Header; h != nil && refLongSyntax(tid) {
+		if h := s.Syntax.Header; h != nil && psiRefLongSyntax(tid) {
 			body.put(16, uint64(h.TableIDExtension))
-			body.put(2, refRsv(2))
+			body.put(2, psiRefRsv(2))
 			body.put(5, uint64(h.VersionNumber))
 			body.flag(h.CurrentNextIndicator)
 			body.put(8, uint64(h.SectionNumber))
@@ -208,87 +227,87 @@ func refEncodeSection(s *astits.PSISection) []byte {
 		case tid == rTidPAT && d != nil && d.PAT != nil:
 			for _, p := range d.PAT.Programs {
 				body.put(16, uint64(p.ProgramNumber))
-				body.put(3, refRsv(3))
+				body.put(3, psiRefRsv(3))
 				body.put(13, uint64(p.ProgramMapID))
 			}
 		case tid == rTidPMT && d != nil && d.PMT != nil:
-			body.put(3, refRsv(3))
+			body.put(3, psiRefRsv(3))
 			body.put(13, uint64(d.PMT.PCRPID))
-			refDescLoop(body, d.PMT.ProgramDescriptors)
+			psiRefDescLoop(body, d.PMT.ProgramDescriptors)
 			for _, es := range d.PMT.ElementaryStreams {
 				body.put(8, uint64(es.StreamType))
-				body.put(3, refRsv(3))
+				body.put(3, psiRefRsv(3))
 				body.put(13, uint64(es.ElementaryPID))
-				refDescLoop(body, es.ElementaryStreamDescriptors)
+				psiRefDescLoop(body, es.ElementaryStreamDescriptors)
 			}
-		case refIsNIT(tid) && d != nil && d.NIT != nil:
-			refDescLoop(body, d.NIT.NetworkDescriptors)
+		case psiRefIsNIT(tid) && d != nil && d.NIT != nil:
+			psiRefDescLoop(body, d.NIT.NetworkDescriptors)
 			loop := &bw{}
 			for _, ts := range d.NIT.TransportStreams {
 				loop.put(16, uint64(ts.TransportStreamID))
 				loop.put(16, uint64(ts.OriginalNetworkID))
-				refDescLoop(loop, ts.TransportDescriptors)
+				psiRefDescLoop(loop, ts.TransportDescriptors)
 			}
-			body.put(4, refRsv(4))
+			body.put(4, psiRefRsv(4))
 			body.put(12, uint64(len(loop.b)))
 			body.bytes(loop.b)
-		case refIsSDT(tid) && d != nil && d.SDT != nil:
+		case psiRefIsSDT(tid) && d != nil && d.SDT != nil:
 			body.put(16, uint64(d.SDT.OriginalNetworkID))
-			body.put(8, refRsv(8))
+			body.put(8, psiRefRsv(8))
 			for _, sv := range d.SDT.Services {
 				body.put(16, uint64(sv.ServiceID))
-				body.put(6, refRsv(6))
+				body.put(6, psiRefRsv(6))
 				body.flag(sv.HasEITSchedule)
 				body.flag(sv.HasEITPresentFollowing)
 				body.put(3, uint64(sv.RunningStatus))
 				body.flag(sv.HasFreeCSAMode)
 				lb := &bw{}
-				refEncodeDescriptors(lb, sv.Descriptors)
+				psiRefEncodeDescriptors(lb, sv.Descriptors)
 				body.put(12, uint64(len(lb.b)))
 				body.bytes(lb.b)
 			}
-		case refIsEIT(tid) && d != nil && d.EIT != nil:
+		case psiRefIsEIT(tid) && d != nil && d.EIT != nil:
 			body.put(16, uint64(d.EIT.TransportStreamID))
 			body.put(16, uint64(d.EIT.OriginalNetworkID))
 			body.put(8, uint64(d.EIT.SegmentLastSectionNumber))
 			body.put(8, uint64(d.EIT.LastTableID))
 			for _, e := range d.EIT.Events {
 				body.put(16, uint64(e.EventID))
-				refEncodeTime(body, e.StartTime)
-				refEncodeDuration(body, e.Duration)
+				psiRefEncodeTime(body, e.StartTime)
+				psiRefEncodeDuration(body, e.Duration)
 				body.put(3, uint64(e.RunningStatus))
 				body.flag(e.HasFreeCSAMode)
 				lb := &bw{}
-				refEncodeDescriptors(lb, e.Descriptors)
+				psiRefEncodeDescriptors(lb, e.Descriptors)
 				body.put(12, uint64(len(lb.b)))
 				body.bytes(lb.b)
 			}
 		case tid == rTidTOT && d != nil && d.TOT != nil:
-			refEncodeTime(body, d.TOT.UTCTime)
-			refDescLoop(body, d.TOT.Descriptors)
+			psiRefEncodeTime(body, d.TOT.UTCTime)
+			psiRefDescLoop(body, d.TOT.Descriptors)
 		}
 	}
 	w := &bw{}
 	w.put(8, uint64(tid))
 	w.flag(s.Header.SectionSyntaxIndicator)
 	w.flag(s.Header.PrivateBit)
-	w.put(2, refRsv(2))
+	w.put(2, psiRefRsv(2))
 	n := len(body.b)
-	hasCRC := refDecoded(tid) && s.Syntax != nil
+	hasCRC := psiRefDecoded(tid) && s.Syntax != nil
 	if hasCRC {
 		n += 4
 	}
 	w.put(12, uint64(n))
 	w.bytes(body.b)
 	if hasCRC {
-		w.put(32, uint64(refCRC32(w.b)))
+		w.put(32, uint64(psiRefCRC32(w.b)))
 	}
 	return w.b
 }
 
-// refEncodeUnit: pointer_field, filler, the sections; a section whose table id stops the parsing
+// psiRefEncodeUnit: pointer_field, filler, the sections; a section whose table id stops the parsing
 // (0xff or an unassigned id) is a single byte and must be last.
-func refEncodeUnit(d *astits.PSIData, filler []byte) []byte {
+func psiRefEncodeUnit(d *astits.PSIData, filler []byte) []byte {
 	out := []byte{byte(d.PointerField)}
 	for k := 0; k < d.PointerField; k++ {
 		if k < len(filler) {
@@ -299,32 +318,32 @@ func refEncodeUnit(d *astits.PSIData, filler []byte) []byte {
 	}
 	for _, s := range d.Sections {
 		tid := int(s.Header.TableID)
-		if !refKnown(tid) {
+		if !psiRefKnown(tid) {
 			out = append(out, byte(tid))
 			continue
 		}
-		out = append(out, refEncodeSection(s)...)
+		out = append(out, psiRefEncodeSection(s)...)
 	}
 	return out
 }
 
-// refFinish fills in the derived fields of a content model from its reference encoding, so that
+// psiRefFinish fills in the derived fields of a content model from its reference encoding, so that
 // the model is exactly what a decoder must deliver.
-func refFinish(d *astits.PSIData) {
+func psiRefFinish(d *astits.PSIData) {
 	for _, s := range d.Sections {
 		tid := int(s.Header.TableID)
-		s.Header.TableType = refTableName(tid)
-		if !refKnown(tid) {
+		s.Header.TableType = psiRefTableName(tid)
+		if !psiRefKnown(tid) {
 			continue
 		}
-		b := refEncodeSection(s)
+		b := psiRefEncodeSection(s)
 		s.Header.SectionLength = uint16(len(b) - 3)
-		if refDecoded(tid) && s.Syntax != nil {
+		if psiRefDecoded(tid) && s.Syntax != nil {
 			s.CRC32 = uint32(b[len(b)-4])<<24 | uint32(b[len(b)-3])<<16 | uint32(b[len(b)-2])<<8 | uint32(b[len(b)-1])
 		}
 		psiEachDescList(s, func(ds []*astits.Descriptor) {
 			for _, x := range ds {
-				x.Length = uint8(len(refDescBody(x)))
+				x.Length = uint8(len(psiRefDescBody(x)))
 			}
 		})
 	}
@@ -364,31 +383,31 @@ func psiEachDescList(s *astits.PSISection, f func([]*astits.Descriptor)) {
 
 // ---------- decoder ----------
 
-var errRef = errors.New("reference decoder: malformed")
+var psiErrRef = errors.New("reference decoder: malformed")
 
-type refInfo struct {
+type psiRefInfo struct {
 	typedDesc bool // a descriptor with a typed body was met (its body is not compared here)
 	oldDate   bool // an MJD before 1900-03-01, outside the validity of the Annex C conversion
 }
 
-type refRd struct {
+type psiRefRd struct {
 	b   []byte
 	pos int
 	end int
 }
 
-func (r *refRd) need(n int) error {
+func (r *psiRefRd) need(n int) error {
 	if n < 0 || r.pos+n > r.end {
-		return errRef
+		return psiErrRef
 	}
 	return nil
 }
-func (r *refRd) u8() int   { v := int(r.b[r.pos]); r.pos++; return v }
-func (r *refRd) u16() int  { v := int(r.b[r.pos])<<8 | int(r.b[r.pos+1]); r.pos += 2; return v }
-func (r *refRd) left() int { return r.end - r.pos }
+func (r *psiRefRd) u8() int   { v := int(r.b[r.pos]); r.pos++; return v }
+func (r *psiRefRd) u16() int  { v := int(r.b[r.pos])<<8 | int(r.b[r.pos+1]); r.pos += 2; return v }
+func (r *psiRefRd) left() int { return r.end - r.pos }
 
-// refDecodeDescriptors decodes a descriptor area of exactly n bytes.
-func refDecodeDescriptors(r *refRd, n int, info *refInfo) ([]*astits.Descriptor, error) {
+// psiRefDecodeDescriptors decodes a descriptor area of exactly n bytes.
+func psiRefDecodeDescriptors(r *psiRefRd, n int, info *psiRefInfo) ([]*astits.Descriptor, error) {
 	if err := r.need(n); err != nil {
 		return nil, err
 	}
@@ -396,20 +415,20 @@ func refDecodeDescriptors(r *refRd, n int, info *refInfo) ([]*astits.Descriptor,
 	var out []*astits.Descriptor
 	for r.pos < end {
 		if end-r.pos < 2 {
-			return nil, errRef
+			return nil, psiErrRef
 		}
 		tag := uint8(r.u8())
 		l := r.u8()
 		if r.pos+l > end {
-			return nil, errRef
+			return nil, psiErrRef
 		}
 		d := &astits.Descriptor{Tag: tag, Length: uint8(l)}
 		if l > 0 {
 			body := append([]byte{}, r.b[r.pos:r.pos+l]...)
 			switch {
-			case refIsUserTag(tag):
+			case psiRefIsUserTag(tag):
 				d.UserDefined = body
-			case refTypedTags[tag]:
+			case psiRefTypedTags[tag]:
 				info.typedDesc = true
 			default:
 				d.Unknown = &astits.DescriptorUnknown{Tag: tag, Content: body}
@@ -421,16 +440,16 @@ func refDecodeDescriptors(r *refRd, n int, info *refInfo) ([]*astits.Descriptor,
 	return out, nil
 }
 
-// refDescLoopDecode: reserved(4) length(12) descriptors
-func refDescLoopDecode(r *refRd, info *refInfo) ([]*astits.Descriptor, error) {
+// psiRefDescLoopDecode: reserved(4) length(12) descriptors
+func psiRefDescLoopDecode(r *psiRefRd, info *psiRefInfo) ([]*astits.Descriptor, error) {
 	if err := r.need(2); err != nil {
 		return nil, err
 	}
 	n := r.u16() & 0xfff
-	return refDecodeDescriptors(r, n, info)
+	return psiRefDecodeDescriptors(r, n, info)
 }
 
-func refTimeField(r *refRd, info *refInfo) (time.Time, error) {
+func psiRefTimeField(r *psiRefRd, info *psiRefInfo) (time.Time, error) {
 	if err := r.need(5); err != nil {
 		return time.Time{}, err
 	}
@@ -439,16 +458,16 @@ func refTimeField(r *refRd, info *refInfo) (time.Time, error) {
 	if int(b[0])<<8|int(b[1]) < 15079 {
 		info.oldDate = true
 	}
-	return refDecodeTime(b), nil
+	return psiRefDecodeTime(b), nil
 }
 
-// refDecodeSection decodes the section that starts at b[0] and is exactly len(b) bytes long
+// psiRefDecodeSection decodes the section that starts at b[0] and is exactly len(b) bytes long
 // (header included); the CRC_32 has been verified by the caller.
-func refDecodeSection(b []byte, info *refInfo) (*astits.PSISection, error) {
+func psiRefDecodeSection(b []byte, info *psiRefInfo) (*astits.PSISection, error) {
 	tid := int(b[0])
 	s := &astits.PSISection{Header: &astits.PSISectionHeader{
 		TableID:                astits.PSITableID(tid),
-		TableType:              refTableName(tid),
+		TableType:              psiRefTableName(tid),
 		SectionSyntaxIndicator: b[1]&0x80 != 0,
 		PrivateBit:             b[1]&0x40 != 0,
 		SectionLength:          uint16(b[1]&0x0f)<<8 | uint16(b[2]),
@@ -457,14 +476,14 @@ func refDecodeSection(b []byte, info *refInfo) (*astits.PSISection, error) {
 		return s, nil
 	}
 	s.Syntax = &astits.PSISectionSyntax{Data: &astits.PSISectionSyntaxData{}}
-	if !refDecoded(tid) {
+	if !psiRefDecoded(tid) {
 		return s, nil
 	}
 	n := len(b)
 	s.CRC32 = uint32(b[n-4])<<24 | uint32(b[n-3])<<16 | uint32(b[n-2])<<8 | uint32(b[n-1])
-	r := &refRd{b: b, pos: 3, end: n - 4}
+	r := &psiRefRd{b: b, pos: 3, end: n - 4}
 	ext := 0
-	if refLongSyntax(tid) {
+	if psiRefLongSyntax(tid) {
 		if err := r.need(5); err != nil {
 			return nil, err
 		}
@@ -480,7 +499,7 @@ func refDecodeSection(b []byte, info *refInfo) (*astits.PSISection, error) {
 	case tid == rTidPAT:
 		d := &astits.PATData{TransportStreamID: uint16(ext)}
 		if r.left()%4 != 0 {
-			return nil, errRef
+			return nil, psiErrRef
 		}
 		for r.left() > 0 {
 			pn := r.u16()
@@ -494,7 +513,7 @@ func refDecodeSection(b []byte, info *refInfo) (*astits.PSISection, error) {
 			return nil, err
 		}
 		d.PCRPID = uint16(r.u16() & 0x1fff)
-		if d.ProgramDescriptors, err = refDescLoopDecode(r, info); err != nil {
+		if d.ProgramDescriptors, err = psiRefDescLoopDecode(r, info); err != nil {
 			return nil, err
 		}
 		for r.left() > 0 {
@@ -503,15 +522,15 @@ func refDecodeSection(b []byte, info *refInfo) (*astits.PSISection, error) {
 			}
 			es := &astits.PMTElementaryStream{StreamType: astits.StreamType(r.u8())}
 			es.ElementaryPID = uint16(r.u16() & 0x1fff)
-			if es.ElementaryStreamDescriptors, err = refDescLoopDecode(r, info); err != nil {
+			if es.ElementaryStreamDescriptors, err = psiRefDescLoopDecode(r, info); err != nil {
 				return nil, err
 			}
 			d.ElementaryStreams = append(d.ElementaryStreams, es)
 		}
 		s.Syntax.Data.PMT = d
-	case refIsNIT(tid):
+	case psiRefIsNIT(tid):
 		d := &astits.NITData{NetworkID: uint16(ext)}
-		if d.NetworkDescriptors, err = refDescLoopDecode(r, info); err != nil {
+		if d.NetworkDescriptors, err = psiRefDescLoopDecode(r, info); err != nil {
 			return nil, err
 		}
 		if err = r.need(2); err != nil {
@@ -519,7 +538,7 @@ func refDecodeSection(b []byte, info *refInfo) (*astits.PSISection, error) {
 		}
 		ll := r.u16() & 0xfff
 		if ll != r.left() {
-			return nil, errRef
+			return nil, psiErrRef
 		}
 		for r.left() > 0 {
 			if err = r.need(4); err != nil {
@@ -527,13 +546,13 @@ func refDecodeSection(b []byte, info *refInfo) (*astits.PSISection, error) {
 			}
 			ts := &astits.NITDataTransportStream{TransportStreamID: uint16(r.u16())}
 			ts.OriginalNetworkID = uint16(r.u16())
-			if ts.TransportDescriptors, err = refDescLoopDecode(r, info); err != nil {
+			if ts.TransportDescriptors, err = psiRefDescLoopDecode(r, info); err != nil {
 				return nil, err
 			}
 			d.TransportStreams = append(d.TransportStreams, ts)
 		}
 		s.Syntax.Data.NIT = d
-	case refIsSDT(tid):
+	case psiRefIsSDT(tid):
 		d := &astits.SDTData{TransportStreamID: uint16(ext)}
 		if err = r.need(3); err != nil {
 			return nil, err
@@ -551,13 +570,13 @@ func refDecodeSection(b []byte, info *refInfo) (*astits.PSISection, error) {
 			w := r.u16()
 			sv.RunningStatus = uint8(w >> 13)
 			sv.HasFreeCSAMode = w&0x1000 != 0
-			if sv.Descriptors, err = refDecodeDescriptors(r, w&0xfff, info); err != nil {
+			if sv.Descriptors, err = psiRefDecodeDescriptors(r, w&0xfff, info); err != nil {
 				return nil, err
 			}
 			d.Services = append(d.Services, sv)
 		}
 		s.Syntax.Data.SDT = d
-	case refIsEIT(tid):
+	case psiRefIsEIT(tid):
 		d := &astits.EITData{ServiceID: uint16(ext)}
 		if err = r.need(6); err != nil {
 			return nil, err
@@ -571,15 +590,15 @@ func refDecodeSection(b []byte, info *refInfo) (*astits.PSISection, error) {
 				return nil, err
 			}
 			e := &astits.EITDataEvent{EventID: uint16(r.u16())}
-			if e.StartTime, err = refTimeField(r, info); err != nil {
+			if e.StartTime, err = psiRefTimeField(r, info); err != nil {
 				return nil, err
 			}
-			e.Duration = refDecodeDuration(r.b[r.pos : r.pos+3])
+			e.Duration = psiRefDecodeDuration(r.b[r.pos : r.pos+3])
 			r.pos += 3
 			w := r.u16()
 			e.RunningStatus = uint8(w >> 13)
 			e.HasFreeCSAMode = w&0x1000 != 0
-			if e.Descriptors, err = refDecodeDescriptors(r, w&0xfff, info); err != nil {
+			if e.Descriptors, err = psiRefDecodeDescriptors(r, w&0xfff, info); err != nil {
 				return nil, err
 			}
 			d.Events = append(d.Events, e)
@@ -587,48 +606,48 @@ func refDecodeSection(b []byte, info *refInfo) (*astits.PSISection, error) {
 		s.Syntax.Data.EIT = d
 	case tid == rTidTOT:
 		d := &astits.TOTData{}
-		if d.UTCTime, err = refTimeField(r, info); err != nil {
+		if d.UTCTime, err = psiRefTimeField(r, info); err != nil {
 			return nil, err
 		}
-		if d.Descriptors, err = refDescLoopDecode(r, info); err != nil {
+		if d.Descriptors, err = psiRefDescLoopDecode(r, info); err != nil {
 			return nil, err
 		}
 		if r.left() != 0 {
-			return nil, errRef
+			return nil, psiErrRef
 		}
 		s.Syntax.Data.TOT = d
 	}
 	return s, nil
 }
 
-// refDecodeUnit decodes a payload unit: pointer_field, filler, then sections until the end of the
+// psiRefDecodeUnit decodes a payload unit: pointer_field, filler, then sections until the end of the
 // buffer, a stuffing byte (0xff) or an unassigned table id. Any incomplete or damaged section makes
 // the whole unit an error; a section of a decoded type is accepted only with a correct CRC_32.
-func refDecodeUnit(b []byte) (*astits.PSIData, refInfo, error) {
-	var info refInfo
+func psiRefDecodeUnit(b []byte) (*astits.PSIData, psiRefInfo, error) {
+	var info psiRefInfo
 	if len(b) == 0 {
-		return nil, info, errRef
+		return nil, info, psiErrRef
 	}
 	d := &astits.PSIData{PointerField: int(b[0])}
 	pos := 1 + int(b[0])
 	for pos < len(b) {
 		tid := int(b[pos])
-		if !refKnown(tid) {
+		if !psiRefKnown(tid) {
 			d.Sections = append(d.Sections, &astits.PSISection{Header: &astits.PSISectionHeader{
-				TableID: astits.PSITableID(tid), TableType: refTableName(tid)}})
+				TableID: astits.PSITableID(tid), TableType: psiRefTableName(tid)}})
 			break
 		}
 		if pos+3 > len(b) {
-			return nil, info, errRef
+			return nil, info, psiErrRef
 		}
 		l := int(b[pos+1]&0x0f)<<8 | int(b[pos+2])
 		end := pos + 3 + l
-		if !refDecoded(tid) || l == 0 {
+		if !psiRefDecoded(tid) || l == 0 {
 			// not decoded: skipped by its length (the rest of the unit when it runs past the end)
 			if end > len(b) {
 				end = len(b)
 			}
-			s, _ := refDecodeSection(b[pos:pos+3], &info)
+			s, _ := psiRefDecodeSection(b[pos:pos+3], &info)
 			if l > 0 {
 				s.Syntax = &astits.PSISectionSyntax{Data: &astits.PSISectionSyntaxData{}}
 			}
@@ -637,14 +656,14 @@ func refDecodeUnit(b []byte) (*astits.PSIData, refInfo, error) {
 			continue
 		}
 		if end > len(b) || l < 4 {
-			return nil, info, errRef
+			return nil, info, psiErrRef
 		}
 		sec := b[pos:end]
 		want := uint32(sec[len(sec)-4])<<24 | uint32(sec[len(sec)-3])<<16 | uint32(sec[len(sec)-2])<<8 | uint32(sec[len(sec)-1])
-		if refCRC32(sec[:len(sec)-4]) != want {
-			return nil, info, errRef
+		if psiRefCRC32(sec[:len(sec)-4]) != want {
+			return nil, info, psiErrRef
 		}
-		s, err := refDecodeSection(sec, &info)
+		s, err := psiRefDecodeSection(sec, &info)
 		if err != nil {
 			return nil, info, err
 		}
@@ -662,7 +681,7 @@ func psiBlankTyped(d *astits.PSIData) {
 	for _, s := range d.Sections {
 		psiEachDescList(s, func(ds []*astits.Descriptor) {
 			for _, x := range ds {
-				if refTypedTags[x.Tag] && !refIsUserTag(x.Tag) {
+				if psiRefTypedTags[x.Tag] && !psiRefIsUserTag(x.Tag) {
 					*x = astits.Descriptor{Tag: x.Tag, Length: x.Length}
 				}
 			}
@@ -670,9 +689,9 @@ func psiBlankTyped(d *astits.PSIData) {
 	}
 }
 
-// refTables is the reference view of what a unit delivers: one entry per section of a decoded type
+// psiRefTables is the reference view of what a unit delivers: one entry per section of a decoded type
 // that has a syntax part, in order.
-func refTables(d *astits.PSIData) []Tok {
+func psiRefTables(d *astits.PSIData) []Tok {
 	var out []Tok
 	for _, s := range d.Sections {
 		if s.Syntax == nil || s.Syntax.Data == nil {
@@ -680,15 +699,15 @@ func refTables(d *astits.PSIData) []Tok {
 		}
 		x := s.Syntax.Data
 		tid := int(s.Header.TableID)
-		if !refDecoded(tid) {
+		if !psiRefDecoded(tid) {
 			continue
 		}
-		out = append(out, refTableTok(x.EIT, x.NIT, x.PAT, x.PMT, x.SDT, x.TOT))
+		out = append(out, psiRefTableTok(x.EIT, x.NIT, x.PAT, x.PMT, x.SDT, x.TOT))
 	}
 	return out
 }
 
-func refTableTok(eit *astits.EITData, nit *astits.NITData, pat *astits.PATData, pmt *astits.PMTData, sdt *astits.SDTData, tot *astits.TOTData) Tok {
+func psiRefTableTok(eit *astits.EITData, nit *astits.NITData, pat *astits.PATData, pmt *astits.PMTData, sdt *astits.SDTData, tot *astits.TOTData) Tok {
 	return L(ToTok(eit), ToTok(nit), ToTok(pat), ToTok(pmt), ToTok(sdt), ToTok(tot))
 }
 
